@@ -115,6 +115,14 @@ def rule_rows(ctx):
     from ..flow import elementwise
     binds = elementwise(lp.target, lp.iter)
     if binds is None:
+        # not a walk over the pairs one by one; is there at least a running count kept PER reference point (an array indexed by the
+        # reference index)?  Without one the row of a pair cannot depend on all earlier pairs of the same reference point.
+        per_ref = [n_ for n_ in walk_no_nested(lp) if isinstance(n_, ast.Subscript) and any(
+            isinstance(x_, ast.Subscript) and norm(x_.value) == f.params[0] for x_ in ast.walk(n_.slice))]
+        if not per_ref:
+            ctx.ob("_rows_for_secondaries.order", False, "loop %s keeps no count indexed by the reference index (rows derived from neighbouring pairs only)" % norm(lp.iter),
+                   "rows[k] = number of EARLIER pairs with the same reference point, whatever the order of the pair list", node=lp, func=f)
+            return
         raise AnalysisError("_rows_for_secondaries: loop header %s is not an element-wise iteration" % norm(lp.iter))
     arg = f.params[0]
     pvars = [k for k, v in binds.items() if norm(v) == "%s[_i]" % arg]
